@@ -2,10 +2,12 @@ package polynomial
 
 import (
 	"fmt"
+	"math/big"
 
 	"github.com/tuneinsight/lattigo/v6/circuits/common/polynomial"
 	"github.com/tuneinsight/lattigo/v6/core/rlwe"
 	"github.com/tuneinsight/lattigo/v6/schemes/bgv"
+	"github.com/tuneinsight/lattigo/v6/utils/bignum"
 )
 
 type Evaluator struct {
@@ -21,7 +23,7 @@ func NewEvaluator(params bgv.Parameters, eval *bgv.Evaluator) *Evaluator {
 		Parameters: params,
 		Evaluator: polynomial.Evaluator[uint64]{
 			Evaluator:         eval,
-			CoefficientGetter: CoefficientGetter{values: make([]uint64, params.MaxSlots())},
+			CoefficientGetter: CoefficientGetter{values: make([]uint64, params.MaxSlots()), t: params.PlaintextModulus()},
 		},
 		InvariantTensoring: eval.ScaleInvariant,
 	}
@@ -76,6 +78,22 @@ func (eval Evaluator) EvaluateFromPowerBasis(pb polynomial.PowerBasis, p interfa
 // [polynomial.CoefficientGetter][uint64] interface.
 type CoefficientGetter struct {
 	values []uint64
+	t      uint64 // plaintext modulus
+}
+
+// reduce returns the coefficient as an integer in [0, t-1]
+// (polynomials can be instantiated from negative int64 coefficients).
+func (c CoefficientGetter) reduce(coeff *bignum.Complex) uint64 {
+
+	if coeff == nil {
+		return 0
+	}
+
+	if c.t == 0 || coeff[0].Sign() >= 0 {
+		return coeff.Uint64()
+	}
+
+	return new(big.Int).Mod(coeff.Int(), new(big.Int).SetUint64(c.t)).Uint64()
 }
 
 // GetVectorCoefficient return a slice []uint64 containing the k-th coefficient
@@ -93,7 +111,7 @@ func (c CoefficientGetter) GetVectorCoefficient(pol polynomial.PolynomialVector,
 
 	for i, p := range pol.Value {
 		for _, j := range mapping[i] {
-			values[j] = p.Coeffs[k].Uint64()
+			values[j] = c.reduce(p.Coeffs[k])
 		}
 	}
 
@@ -102,5 +120,5 @@ func (c CoefficientGetter) GetVectorCoefficient(pol polynomial.PolynomialVector,
 
 // GetSingleCoefficient should return the k-th coefficient of Polynomial as the type uint64.
 func (c CoefficientGetter) GetSingleCoefficient(pol polynomial.Polynomial, k int) (value uint64) {
-	return pol.Coeffs[k].Uint64()
+	return c.reduce(pol.Coeffs[k])
 }
